@@ -14,7 +14,8 @@ PROPS["C05"] = {
              "the prefix monitor (delivered is a prefix of submitted, both directions) is evaluated after every operation and equality after settling. "
              "Theorems: `C05_safety` — for ALL configurations (persistence on, resets off, mirrored CompIDs, same BeginString; everything else free) and ALL fault histories "
              "with non-empty payload ids and sequence numbers within Go's int, delivered is a prefix of submitted in both directions (in order, exactly once, nothing unsent); "
-             "`C05_invariant` (delivered = payloads of the peer's stored application messages below the expected number); meaning of the prefix clause, faithfulness of the links, "
+             "`C05_invariant` (delivered = payloads of the peer's stored application messages below the expected number); meaning of the prefix clause and of the monitor's silence "
+             "(`C05_monitor_silent_iff_safe`, `C05_monitor_settled_silent_iff`), faithfulness of the links, "
              "number round trip, per-engine delivery (C01). The statement without side conditions (`def C05_safety_full`) is FALSE of the model: an empty payload value is "
              "refused as malformed by the peer and consumed (#guard counterexample + theorem `C05_empty_payload_is_consumed`); the generator never produces one. "
              "The liveness clause is NOT a theorem. "
